@@ -273,7 +273,7 @@ def rotate_cases():
 
 
 def generate(rng, tier):
-    n = 40000 if tier == 'thorough' else 700
+    n = 12000 if tier == 'thorough' else 700      # sized so that the thorough tier ends in about a quarter of an hour
     cases = boundary_cases() + bb_boundary() + rotate_cases()
     if has_bb_hook():
         cases += find_cases()
